@@ -37,8 +37,8 @@ ExtLibs == << [lib |-> "set",   uri |-> <<104,116,116,112,58,47,47,101,120,115,1
               [lib |-> "dyn",   uri |-> <<104,116,116,112,58,47,47,101,120,115,108,116,46,111,114,103,47,100,121,110,97,109,105,99>>] >>
 ExtFns == [set |-> {<<100,105,102,102,101,114,101,110,99,101>>, <<105,110,116,101,114,115,101,99,116,105,111,110>>, <<100,105,115,116,105,110,99,116>>,
                     <<104,97,115,45,115,97,109,101,45,110,111,100,101>>, <<108,101,97,100,105,110,103>>, <<116,114,97,105,108,105,110,103>>},
-           math |-> {<<109,105,110>>, <<109,97,120>>, <<104,105,103,104,101,115,116>>, <<108,111,119,101,115,116>>, <<97,98,115>>},
-           exsl |-> {<<111,98,106,101,99,116,45,116,121,112,101>>},
+           math |-> {<<109,105,110>>, <<109,97,120>>, <<104,105,103,104,101,115,116>>, <<108,111,119,101,115,116>>, <<97,98,115>>, <<99,111,110,115,116,97,110,116>>},
+           exsl |-> {<<111,98,106,101,99,116,45,116,121,112,101>>, <<110,111,100,101,45,115,101,116>>},
            str |-> {<<99,111,110,99,97,116>>, <<112,97,100,100,105,110,103>>, <<97,108,105,103,110>>},
            xalan |-> {<<100,105,102,102,101,114,101,110,99,101>>, <<105,110,116,101,114,115,101,99,116,105,111,110>>, <<100,105,115,116,105,110,99,116>>,
                       <<104,97,115,83,97,109,101,78,111,100,101,115>>, <<101,118,97,108,117,97,116,101>>},
